@@ -19,6 +19,73 @@ class Divergence(Exception):
     pass
 
 
+class Deadlock(Exception):
+    """a thread waits for a lock that nobody will release (its holder has finished, or every thread waits)"""
+
+
+# ---------------------------------------------------------------------------------------------------------------------
+# locks of the library under a deterministic scheduler.  A thread that is preempted while it holds a real lock, followed by a
+# thread that blocks on that lock, would hang the scheduler (the holder waits for the baton, the baton holder waits for the lock).
+# Module-level locks of the library are therefore replaced by cooperative proxies: a blocked acquire hands the baton to another
+# thread (a forced switch, not a preemption) and retries; when no other thread can run the wait is a deadlock.
+_CURRENT = [None]          # the Execution in progress (one at a time per process)
+
+
+class CoopLock(object):
+    def __init__(self, real, name='?'):
+        self._real = real
+        self._name = name
+
+    def acquire(self, blocking=True, timeout=-1):
+        if self._real.acquire(False):
+            return True
+        if not blocking:
+            return False
+        ex = _CURRENT[0]
+        tid = ex._tid_of_current_thread() if ex is not None else None
+        if tid is None:
+            # not under the scheduler (sequential phase): a lock that stays taken here was left behind by a call that has returned
+            if self._real.acquire(True, 3.0):
+                return True
+            raise Deadlock('lock %s still held 3 s after every call has returned' % self._name)
+        for _ in range(100000):
+            if not ex._yield_blocked(tid):
+                raise Deadlock('lock %s: no other thread can run and release it' % self._name)
+            if self._real.acquire(False):
+                return True
+        raise Deadlock('lock %s: not released after 100000 hand-overs' % self._name)
+
+    def release(self):
+        return self._real.release()
+
+    def locked(self):
+        return self._real.locked() if hasattr(self._real, 'locked') else None
+
+    __enter__ = acquire
+
+    def __exit__(self, *a):
+        self._real.release()
+
+    def __getattr__(self, k):
+        return getattr(self._real, k)
+
+
+def instrument_locks():
+    """replaces module-level lock objects of the library (geodepy.*, api.*) by cooperative proxies; idempotent"""
+    import _thread
+    import threading
+    kinds = (type(_thread.allocate_lock()), type(threading.RLock()))
+    n = 0
+    for mname, m in list(sys.modules.items()):
+        if m is None or not (mname == 'geodepy' or mname.startswith('geodepy.') or mname in ('api', 'api.app')):
+            continue
+        for k, v in list(vars(m).items()):
+            if isinstance(v, kinds):
+                setattr(m, k, CoopLock(v, '%s.%s' % (mname, k)))
+                n += 1
+    return n
+
+
 class Horizon(Exception):
     pass
 
@@ -66,6 +133,7 @@ class Execution(object):
         self.running = None
         self.fatal = None
         self._fcache = {}
+        self._idents = {}                   # thread ident -> thread index
 
     # -- scheduling ---------------------------------------------------------------------
     def _enabled(self, cur):
@@ -97,6 +165,24 @@ class Execution(object):
             self.fatal = Horizon('more than %d scheduling decisions' % self.horizon)
             return en[0]
         return en[c]
+
+    def _tid_of_current_thread(self):
+        return self._idents.get(threading.get_ident())
+
+    def _yield_blocked(self, tid):
+        """called by a thread that waits for a lock: hands the baton to another unfinished thread (round robin) and returns True when
+        the baton comes back; False if there is nobody else to run"""
+        others = [i for i in range(self.n) if not self.done[i] and i != tid]
+        if not others or self.fatal is not None:
+            return False
+        nxt = others[0] if tid + 1 >= self.n or self.done[(tid + 1) % self.n] or (tid + 1) % self.n == tid else (tid + 1) % self.n
+        if nxt not in others:
+            nxt = others[0]
+        self.trace_log.append(('lock-wait', tid, nxt))
+        self.running = nxt
+        self.sems[nxt].release()
+        self.sems[tid].acquire()
+        return True
 
     def _point(self, tid):
         nxt = self._decide(tid)
@@ -138,6 +224,7 @@ class Execution(object):
         return glob
 
     def _run_thread(self, tid):
+        self._idents[threading.get_ident()] = tid
         self.sems[tid].acquire()            # wait for the baton
         sys.settrace(self._make_tracer(tid))
         try:
@@ -155,6 +242,14 @@ class Execution(object):
                 self.sems[nxt].release()
 
     def run(self):
+        instrument_locks()
+        _CURRENT[0] = self
+        try:
+            return self._run()
+        finally:
+            _CURRENT[0] = None
+
+    def _run(self):
         if self.opcode:
             warm_opcode_tracing()
         threads = [threading.Thread(target=self._run_thread, args=(i,), name='T%d' % i, daemon=True) for i in range(self.n)]
